@@ -88,6 +88,17 @@ impl<S: Read + Write> Client<S> {
         )
     }
 
+    /// Read the body of a frame
+    /// An empty body must not be asked to the link layer
+    /// where a size of zero means "whatever is available"
+    fn read_payload(&mut self, size: usize) -> RdpResult<Vec<u8>> {
+        if size == 0 {
+            Ok(Vec::new())
+        } else {
+            self.transport.read(size)
+        }
+    }
+
     /// Read a payload from the underlying layer
     /// Check the tpkt header and provide a well
     /// formed payload
@@ -143,7 +154,7 @@ impl<S: Read + Write> Client<S> {
             }
             else {
                 // now wait for body
-                Ok(Payload::Raw(Cursor::new(self.transport.read(size.inner() as usize - 4)?)))
+                Ok(Payload::Raw(Cursor::new(self.read_payload(size.inner() as usize - 4)?)))
             }
         } else {
             // fast path
@@ -158,14 +169,14 @@ impl<S: Read + Write> Client<S> {
                 if length < 3 {
                     Err(Error::RdpError(RdpError::new(RdpErrorKind::InvalidSize, "Invalid minimal size for TPKT")))
                 } else {
-                    Ok(Payload::FastPath(sec_flag, Cursor::new(self.transport.read(length as usize - 3)?)))
+                    Ok(Payload::FastPath(sec_flag, Cursor::new(self.read_payload(length as usize - 3)?)))
                 }
             }
             else {
                 if short_length < 2 {
                     Err(Error::RdpError(RdpError::new(RdpErrorKind::InvalidSize, "Invalid minimal size for TPKT")))
                 } else {
-                    Ok(Payload::FastPath(sec_flag, Cursor::new(self.transport.read(short_length as usize - 2)?)))
+                    Ok(Payload::FastPath(sec_flag, Cursor::new(self.read_payload(short_length as usize - 2)?)))
                 }
             }
          }
